@@ -122,8 +122,29 @@ func (l *leanTie) checkGraph(c cfgCase, out string, status int) *graphAns {
 	if strings.Contains(f[2], "+hyp") {
 		l.res.Count("lean:graph-c07-hypotheses-hold")
 	}
-	if strings.Contains(f[2], "+wf") {
+	if strings.Contains(f[2], "+wf\t") || strings.Contains(f[2], "+wf+") || strings.HasSuffix(f[2], "+wf") {
 		l.res.Count("lean:graph-c08-hypotheses-hold")
+	}
+	// graph_fuel_suffices: references respect the kind rank
+	if strings.Contains(f[2], "+ranked") {
+		l.res.Count("lean:graph-ranked (fuel suffices)")
+	}
+	// graph_unchanged_only_if_equivalent: its hypotheses on the pair, for the cases with an empty script
+	if strings.Contains(f[2], "+wf2") {
+		l.res.Count("lean:graph-wf2-holds")
+		if impl == "" {
+			l.res.Count("lean:graph-unchanged-theorem-applies")
+		}
+	}
+	// graph_converges_partial: second compare of the model empty and the result well-formed; its conclusion evaluated as well
+	if strings.Contains(f[2], "+stable") {
+		l.res.Count("lean:graph-converges-hypotheses-hold")
+		if !strings.Contains(f[2], "+eqv") {
+			l.res.Disagree("vpn-graph-theorem", in, "graph_converges_partial: hypotheses hold", "conclusion (eqv of every anchor) evaluates to false")
+		}
+	}
+	if strings.Contains(f[2], "+eqv") != strings.Contains(f[2], "+conv") && strings.HasPrefix(f[2], "acc") {
+		l.res.Count("lean:graph-eqv-and-view-differ")
 	}
 	return &graphAns{acc: strings.HasPrefix(f[2], "acc"), conv: strings.Contains(f[2], "+conv"), frame: strings.Contains(f[2], "+frame"), second: f[3]}
 }
